@@ -77,6 +77,13 @@ def gen(rng, tier):
             spec["nodes"][0]["lo"] = fs(rng.choice(his) - rng.choice([0, 0, 1])) if his and rng.random() < 0.8 else rng.choice(["1", "2"])
             if Fraction(spec["nodes"][0]["lo"]) < 0:
                 spec["nodes"][0]["lo"] = "0"
+        if k % 8 == 2:
+            # the whole time axis far from zero (2^30: time stamps rather than offsets; still exact in doubles): a window test with a
+            # RELATIVE tolerance would accept late arrivals there
+            for nd in spec["nodes"]:
+                nd["lo"] = fs(Fraction(nd["lo"]) + 2 ** 30)
+                if nd["hi"] != "inf":
+                    nd["hi"] = fs(Fraction(nd["hi"]) + 2 ** 30)
         # construction route: a finished VRPTW handed to the formulations, or the graph assembled through the path-based object's own
         # add_node / add_arc / set_depot with the depot named late and routes offered by name (the result must not depend on it)
         if rng.random() < 0.35:
